@@ -822,6 +822,11 @@ example :
            (["function".toList, "foo".toList], .leaf ["    return 1;".toList, "".toList]),
            (["C_definitions".toList], .leaf ["#define A 1".toList])] := by decide
 
+/-- A `splicer_code` block scalar and a declaration-level scalar mean the same lines. -/
+theorem codeScalar_listify (v : Str) : listifyStr v = .ok (codeScalar v) := rfl
+
+example : codeScalar "// line 1\nint x;\n".toList = ["// line 1".toList, "int x;".toList] := by decide
+
 /-! ### stack discipline of `wrap_namespace` -/
 
 def NS.scope : NS → Str | .mk s _ => s
